@@ -1,7 +1,7 @@
 SPECIFICATION Spec
 CONSTANTS
   Alphabet <- MCAlphabet
-  MaxLen = 4
+  MaxLen = 3
   Emit = TRUE
 INVARIANTS TrimIdem TrimInvariant IntIsFloat IntIsVec BitIsBoth TokensClean Vec3IsVec FloatTableOk Vector
 CHECK_DEADLOCK FALSE
